@@ -790,7 +790,8 @@ SPEC = PropSpec(
                  "headers-only mode yields the raw packets. The value-level claim for all documents is the conjunction "
                  "of C03-C08/C14, each decided for its own part."
                  " R1.e2: a second document (two sibling containers that both match, (A or B) and (C or D) criteria, a context calibrator keyed on the parameter's own raw value incl. 0, a step spline queried at its last point, the XTCE 1.1 spelling twosCompliment, a length lookup whose first entry is only partly satisfied) decoded for five packets with and without error reporting."
-                 " R1.e3: a third document written by hand as XML text (spellings the library's writer never produces: the `signed` attribute contradicting the encoding, zero-padded literals, a comparison list with two comparisons on one parameter - a range and a contradiction -, time encodings with scale and offset together, contexts of different lengths in document order, a spline with a step, a little-endian termination character) decoded for APIDs 0..2047 against a reference, with and without error reporting."),
+                 " R1.e3: a third document written by hand as XML text (spellings the library's writer never produces: the `signed` attribute contradicting the encoding, zero-padded literals, a comparison list with two comparisons on one parameter - a range and a contradiction -, time encodings with scale and offset together, contexts of different lengths in document order, a spline with a step, a little-endian termination character) decoded for APIDs 0..2047 against a reference, with and without error reporting."
+                 ' The hand-written document is also decoded from prefixed records read in 7-byte chunks (skip_header_bytes x buffer_read_size_bytes), with interleaved segment groups of two APIDs under combining, and after a second definition was assembled from some of its container objects; it contains word-spelled operators at their boundary values, a spline with tied points in both directions, AncillaryDataSet in front of calibrators and an abstract container nothing inherits from.'),
     rule_doc="R1.1 per registry row / listed class; R1.2 per concrete class; R1.e per packet of the stream x reporting option",
     assumptions=["struct (IEEE-754), Python codecs", "the model of lxml used to load the document (spv/xmlmodel.py)"],
     mutants=mutants,
